@@ -66,7 +66,7 @@ F0 == [st |-> "down", mode |-> "", req |-> 0, H |-> 0, have |-> <<>>, next |-> 0
        refused |-> FALSE, image |-> FALSE, restarted |-> FALSE, cn |-> 0, skipped |-> ""]
 
 M0 == [log |-> <<>>, hs |-> <<>>, hrs |-> <<>>, pos |-> EmptyFn, fs |-> EmptyFn, files |-> EmptyFn, snaps |-> EmptyFn,
-       nv |-> 0, name |-> "", quiet |-> FALSE, dupnodes |-> {}, rot |-> FALSE]
+       nv |-> 0, name |-> "", quiet |-> FALSE, dupnodes |-> {}, rot |-> FALSE, shortlived |-> FALSE]
 
 Fol(mm, f) == IF f \in DOMAIN mm.fs THEN mm.fs[f] ELSE F0
 PutFol(mm, f, r) == [mm EXCEPT !.fs = SetFn(mm.fs, f, r)]
@@ -83,7 +83,7 @@ Known(mm, id) == id \in DOMAIN mm.pos
 HashOK(mm, id, h) == mm.hs[mm.pos[id]] = h
 
 -----------------------------------------------------------------------------
-StepBegin(mm, e) == [M0 EXCEPT !.name = e.name, !.nv = mm.nv, !.rot = e.rot]
+StepBegin(mm, e) == [M0 EXCEPT !.name = e.name, !.nv = mm.nv, !.rot = e.rot, !.shortlived = e.shortlived]
 
 \* the leader's log as the reference follower received it: ids go up by one inside a file; a new file starts at offset 1
 StepL(mm, e) ==
@@ -149,7 +149,9 @@ StepW(mm, e) ==
 StepFdone(mm, e) ==
     LET fr == Fol(mm, e.f)
         need == CountBelow(mm, fr.H)
-        m1 == IF Rotated(mm) THEN mm
+        \* (records of holds that have EXPIRED by the time of the transfer are left out by the reader, as at start-up: the
+        \*  count is not judged in scenarios with short-lived holds; what was delivered, the files and the states still are)
+        m1 == IF Rotated(mm) \/ mm.shortlived THEN mm
               ELSE Check(mm, fr.nfile = need, "file-transfer-incomplete", [f |-> e.f, cn |-> e.cn, handshake |-> fr.H, records_below |-> need, sent |-> fr.nfile])
     IN PutFol(m1, e.f, [fr EXCEPT !.st = "live", !.next = FirstPosGE(mm, fr.H)])
 
